@@ -216,7 +216,7 @@ static void run_dag(Scen& s, Rng& r, Result& R) {
 //             4 queue -> limiter -> rejecting worker with additional direct puts into the limiter
 static void run_lossy(Scen& s, Rng& r, Result& R, int forced_kind) {
     g_phase.store(1);
-    s.lossy_kind = forced_kind >= 0 ? forced_kind : (int)r.below(4);
+    s.lossy_kind = forced_kind >= 0 ? forced_kind : (int)r.below(5);
     s.M = 4 + (int)r.below(r.chance(1, 3) ? 200 : 60); s.NN = 1;
     s.nput = 1 + (int)r.below(5); s.inside_mask = r.chance(1, 3) ? (unsigned)r.below(64) : 0; s.rounds = 1;
     s.nodes.emplace_back(new NodeRec); NodeRec& n = *s.nodes.back(); n.idx = 0; n.kind = K_FR;
@@ -274,8 +274,7 @@ static void run_lossy(Scen& s, Rng& r, Result& R, int forced_kind) {
     s.quiet.store(true, RLX); g_phase.store(4); G.waits_checked.fetch_add(1, RLX);
     if (lt != 0) s.fail("c14.idle.body-running-at-return", std::to_string(lt) + " node body invocation(s) still running when wait_for_all returned");
     long acc = 0;
-    // topology 4 has its own key class: the mixed direct/queued limiter traffic is where a known defect of limiter_node lives
-    const std::string rk = s.lossy_kind == 4 ? "c14.L3.reject." : "c14.reject.";
+    const std::string rk = "c14.reject.";
     auto need = [&](Probe* p, int x, uint32_t want, const char* why) {
         uint32_t c = p->cnt[x].load(RLX);
         if (c == want) return;
